@@ -180,21 +180,13 @@ def run(ctx):
             tt = _truth_table(st.value)
             ctx.check(tt == spec, "R4", en, st, "pair_nuclear_energy", st, f"{nm} selects exactly {sorted(spec)}",
                       f"core-core special case `{norm(st)}` selects {sorted(tt)[:6]} but the method definition is {sorted(spec)}")
-    bp = repo.mod("seqm/basics.py").func("Energy._build_parnuc")
-    counts = {}
-    for iff in ast.walk(bp):
-        if isinstance(iff, ast.If):
-            ms = frozenset(c.value for c in ast.walk(iff.test) if isinstance(c, ast.Constant) and isinstance(c.value, str))
-            rng = [c for c in calls_in(iff) if isinstance(c.func, ast.Name) and c.func.id == "range"]
-            if rng:
-                try:
-                    lo, hi = fold(rng[0].args[0]), fold(rng[0].args[1])
-                    for mth in ms:
-                        counts[mth] = hi - lo
-                except NotConst:
-                    pass
-    ctx.check(counts.get("AM1") == 4 and counts.get("PM3") == 2, "R4", repo.mod("seqm/basics.py"), bp, "Energy._build_parnuc", "Gaussian counts",
-              "AM1 uses 4 and PM3 uses 2 core-core Gaussians", f"Gaussian term counts are {counts}")
+    # Gaussian term counts and order, decided by value: the `parameters` argument of every pair_nuclear_energy call of the two energy drivers is interpreted (sa.npsym) per
+    # method on symbolic parameter vectors and compared with (alpha,) / (alpha, K, L, M) of 4 (AM1, PM6 family) or 2 (PM3) Gaussians
+    from ..assembly import interpreted_core_parameters
+    for rel_, qual_, line_, method_, ok_, msg_ in interpreted_core_parameters(repo):
+        m_ = repo.mod(rel_)
+        ctx.check(ok_, "R4", m_, m_.func(qual_), qual_, f"core-core parameters ({method_})",
+                  f"{qual_}: pair_nuclear_energy receives the published parameter tuple for {method_}", msg_ + ": the core-core repulsion is not the published one")
 
     # ------------------------------------------------------------------ R5
     from ..assembly import check_energy_functions
